@@ -431,6 +431,9 @@ def catalogue(tier="quick"):
                                         ("dynamics", "every_dynamic_mark"), ("dynamics_both_staves", "every_dynamic_mark"), ("constant_directions_of_three_families", "every_dynamic_mark"),
                                         ("direction_inside_last_note", "every_dynamic_mark"), ("grace", "grace_run_below"), ("grace_chain", "grace_run_below"), ("grace_run_below", "duplicate_ids"))}
         for a, b in itertools.combinations(FEATURES, 2):
+            # (the dynamic marks stand on a sixteenth grid, which the coarser divisions of the divisions-change features cannot hold)
+            if "every_dynamic_mark" in (a, b) and ("divisions_change" in a + b or "split_at_change" in (a, b)):
+                continue
             if frozenset((a, b)) not in clash:
                 out.append((a + "+" + b, [a, b]))
     return out
